@@ -84,34 +84,42 @@ def tableOf : Item → Option (List Name)
   | .table p => some p
   | _ => none
 
+theorem allTables_atom (s : Slot) (n : Node) (hs : s = .skip) (h : isAtom n = true) : allTables s n = [] := by
+  subst hs
+  cases n <;> simp_all [isAtom, allTables]
+
 mutual
-theorem allTables_eq_visit (s : Slot) : ∀ n : Node, noSkip n = true → (visit s n).filterMap tableOf = allTables s n
+theorem allTables_eq_visit (s : Slot) : ∀ n : Node, skipLeafOnly n = true → (visit s n).filterMap tableOf = allTables s n
   | .ident parts star alias, _ => by by_cases h : s = .tbl <;> simp [visit, allTables, h, tableOf]
   | .leaf, _ => by simp [visit, allTables]
   | .native, _ => by by_cases h : s = .tbl <;> simp [visit, allTables, h, tableOf]
   | .func u ks, h => by
-    simp only [noSkip] at h
+    simp only [skipLeafOnly] at h
     cases u
     · simp [visit, allTables, allTablesKids_eq_visit ks h]
     · simp only [visit, allTables, if_true, List.singleton_append]
       rw [List.filterMap_cons_none (by rfl)]
       exact allTablesKids_eq_visit ks h
   | .scope p ks, h => by
-    simp only [noSkip] at h
+    simp only [skipLeafOnly] at h
     simp [visit, allTables, allTablesKids_eq_visit ks h]
   | .plain ks, h => by
-    simp only [noSkip] at h
+    simp only [skipLeafOnly] at h
     simp [visit, allTables, allTablesKids_eq_visit ks h]
-theorem allTablesKids_eq_visit : ∀ ks : Kids, noSkipKids ks = true → (visitKids ks).filterMap tableOf = allTablesKids ks
+theorem allTablesKids_eq_visit : ∀ ks : Kids, skipLeafOnlyKids ks = true → (visitKids ks).filterMap tableOf = allTablesKids ks
   | .nil, _ => by simp [visitKids, allTablesKids]
   | .cons s n ks, h => by
-    simp only [noSkipKids, Bool.and_eq_true, bne_iff_ne, ne_eq] at h
-    obtain ⟨⟨hs, hn⟩, hk⟩ := h
+    simp only [skipLeafOnlyKids, Bool.and_eq_true] at h
+    obtain ⟨hn, hk⟩ := h
     cases s
-    · simp [visitKids, allTablesKids, List.filterMap_append, allTables_eq_visit _ n hn, allTablesKids_eq_visit ks hk]
-    · simp [visitKids, allTablesKids, List.filterMap_append, allTables_eq_visit _ n hn, allTablesKids_eq_visit ks hk]
-    · simp [visitKids, allTablesKids, List.filterMap_append, allTables_eq_visit _ n hn, allTablesKids_eq_visit ks hk]
-    · exact absurd rfl hs
+    · simp at hn
+      simp [visitKids, allTablesKids, List.filterMap_append, allTables_eq_visit _ n hn, allTablesKids_eq_visit ks hk]
+    · simp at hn
+      simp [visitKids, allTablesKids, List.filterMap_append, allTables_eq_visit _ n hn, allTablesKids_eq_visit ks hk]
+    · simp at hn
+      simp [visitKids, allTablesKids, List.filterMap_append, allTables_eq_visit _ n hn, allTablesKids_eq_visit ks hk]
+    · simp at hn
+      simp [visitKids, allTablesKids, allTables_atom .skip n rfl hn, allTablesKids_eq_visit ks hk]
 end
 
 end MindsVerif.Route
